@@ -420,9 +420,135 @@ func Generate(seed uint64, n int, tier string, corpusDir string, out *kit.Out) e
 				return fmt.Errorf("generator cannot produce a buildable schema: %w", err)
 			}
 		}
+		if !sc.Isolated {
+			if app, err := build(sc); err == nil {
+				addRuleDirectedProbes(sc, app, cr)
+				addSearchedProbes(sc, app)
+			}
+		}
 		if err := runScenario(sc, out); err != nil {
 			return err
 		}
 	}
 	return nil
+}
+
+// addSearchedProbes: feedback-directed part of the generator.  Among all 3-subsets of the roles and
+// all (workspace, resource, operation) it looks for requests whose real answer changes when the
+// role list is padded to a full slice (the signature of a supplied role that was not expanded) and
+// adds up to two of them, plus the same request for the single roles.
+func addSearchedProbes(sc *Scenario, app appdef.IAppDef) {
+	var roles []string
+	for _, w := range sc.Wss {
+		roles = append(roles, w.Roles...)
+	}
+	sort.Strings(roles)
+	added := 0
+	for _, w := range sc.Wss {
+		for _, tw := range sc.Wss {
+			for _, ty := range tw.Types {
+				oo := []string{"execute"}
+				if ty.Kind == "view" {
+					oo = []string{"select", "insert"}
+				} else if tableKinds[ty.Kind] {
+					oo = []string{"select", "insert", "update", "activate"}
+				}
+				for _, op := range oo {
+					for a := 0; a < len(roles); a++ {
+						for b := a + 1; b < len(roles); b++ {
+							for c := b + 1; c < len(roles); c++ {
+								q := QueryD{Ws: w.Name, Op: op, Res: ty.Name, Roles: []string{roles[a], roles[b], roles[c]}}
+								p := q
+								p.Roles = append(append([]string{}, q.Roles...), "zz.pad0")
+								if o := ask(app, &q); (o == "allow" || o == "deny") && o != ask(app, &p) {
+									sc.Queries = append(sc.Queries, q, p)
+									for _, x := range q.Roles {
+										sc.Queries = append(sc.Queries, QueryD{Ws: w.Name, Op: op, Res: ty.Name, Roles: []string{x}})
+									}
+									if added++; added >= 2 {
+										return
+									}
+								}
+							}
+						}
+					}
+				}
+			}
+		}
+	}
+}
+
+// addRuleDirectedProbes: for rules of the built schema (taken from the real IAppDef) asks for a
+// resource the rule's filter matches, with one of its operations, its principal (plus sometimes
+// another role) and its field list or a neighbouring one, in the rule's workspace or a descendant:
+// every kind of rule the generator produced is exercised by at least one request.
+func addRuleDirectedProbes(sc *Scenario, app appdef.IAppDef, r *kit.Rng) {
+	var allRoles []string
+	for _, w := range sc.Wss {
+		allRoles = append(allRoles, w.Roles...)
+	}
+	sort.Strings(allRoles)
+	name := func(q appdef.QName) string {
+		if q.Pkg() == pkgName {
+			return q.Entity()
+		}
+		return q.String()
+	}
+	type probe struct {
+		ws, res string
+		rule    appdef.IACLRule
+		t       appdef.IType
+	}
+	var probes []probe
+	for _, wd := range sc.Wss {
+		w := app.Workspace(qn(wd.Name))
+		seen := map[appdef.QName]bool{}
+		var visit func(x appdef.IWorkspace)
+		visit = func(x appdef.IWorkspace) {
+			if seen[x.QName()] {
+				return
+			}
+			seen[x.QName()] = true
+			for _, a := range x.Ancestors() {
+				visit(a)
+			}
+			for _, rule := range x.ACL() {
+				if rule.Op(appdef.OperationKind_Inherits) {
+					continue
+				}
+				for _, t := range w.Types() {
+					// the resources the filter matches, and (so that a filter matching too little is noticed
+					// as well) the other resources the rule's operations apply to
+					if t.QName().Pkg() == pkgName && (rule.Filter().Match(t) ||
+						(r.Chance(1, 2) && appdef.ACLOperationsForType(t.Kind()).Contains(rule.Ops()[0]))) {
+						probes = append(probes, probe{wd.Name, name(t.QName()), rule, t})
+					}
+				}
+			}
+		}
+		visit(w)
+	}
+	for k := 0; k < 14 && len(probes) > 0; k++ {
+		p := probes[r.Intn(len(probes))]
+		q := QueryD{Ws: p.ws, Res: p.res, Op: opName(p.rule.Ops()[r.Intn(len(p.rule.Ops()))])}
+		q.Roles = []string{name(p.rule.Principal().QName())}
+		if r.Chance(1, 3) {
+			q.Roles = append(q.Roles, kit.Pick(r, allRoles))
+		}
+		if wf, ok := p.t.(appdef.IWithFields); ok {
+			switch r.Intn(4) {
+			case 0:
+			case 1:
+				for _, f := range p.rule.Filter().Fields() {
+					if wf.Field(f) != nil {
+						q.Flds = append(q.Flds, f)
+					}
+				}
+			default:
+				ff := wf.Fields()
+				q.Flds = []string{ff[r.Intn(len(ff))].Name()}
+			}
+		}
+		sc.Queries = append(sc.Queries, q)
+	}
 }
